@@ -518,6 +518,11 @@ def install(lib):
 
     def np_logical(op):
         def f(ex, a, b):
+            if isinstance(a, Arr) or isinstance(b, Arr):
+                arr = a if isinstance(a, Arr) else b
+                jv = z3.Int("j!ew")
+                el = lambda v: z3.Select(v.a, jv) if isinstance(v, Arr) else toz(ex.truth(v))
+                return Arr(z3.Lambda([jv], z3.And(el(a), el(b)) if op == "and" else z3.Or(el(a), el(b))), arr.n)
             ta, tb = toz(ex.truth(a)), toz(ex.truth(b))
             return z3.And(ta, tb) if op == "and" else z3.Or(ta, tb)
         return f
